@@ -312,3 +312,148 @@ Theorem tree_conditions_sound_nx (d : desc) (g : graph) (c : compiled) (ri : rin
 Proof. intros Hb Hc Hri He Ha. exact (tree_conditions_sound_gen sp_nx (nxB g) d g c ri n Hb Hc Hri He Ha (contract_nx d g c Hb Hc)). Qed.
 
 Definition hw_tree_acyclic_src d g c := hw_tree_acyclic_src_gen sp_reference (bound g) d g c.
+
+(* ------------------------------------------------------------------ source routing: the checker's dependency sets *)
+From FV Require Import AxiProofs TableProofs.
+
+Lemma pick_bus_nonempty nw kind l b : pick_bus nw kind l = Some b -> l <> [].
+Proof. intros H ->. discriminate H. Qed.
+
+Lemma emit_ni_roles d g ni x off : compile_ni d g ni = Ok x ->
+  (ni_is_mgr (emit_ni d off x) = true -> ni_mgr x = true) /\ (ni_is_sbr (emit_ni d off x) = true -> ni_sbr x = true).
+Proof.
+  intros Hc. destruct (compile_ni_buses d g ni x Hc) as (_ & _ & _ & Hm & _ & Hs).
+  assert (Mg : cn_mgr_buses x <> [] -> ni_mgr x = true).
+  { intros Hne. unfold ni_mgr, ep_is_mgr. destruct (ep_mgr (cn_ep x)); [reflexivity|]. destruct (cn_mgr_buses x); [congruence|discriminate]. }
+  assert (Sb : cn_sbr_buses x <> [] -> ni_sbr x = true).
+  { intros Hne. unfold ni_sbr, ep_is_sbr. destruct (ep_sbr (cn_ep x)); [reflexivity|]. destruct (cn_sbr_buses x); [congruence|discriminate]. }
+  unfold ni_is_mgr, ni_is_sbr, emit_ni. cbn [ni_flags]. destruct (d_nw d); cbn [fst existsb snd orb].
+  - split; intros H; rewrite orb_false_r in H; apply orb_true_iff in H; destruct H as [H|H].
+    + destruct (pick_bus true "narrow" (cn_mgr_buses x)) eqn:P; [|discriminate]. apply Mg. eapply pick_bus_nonempty; eauto.
+    + destruct (pick_bus true "wide" (cn_mgr_buses x)) eqn:P; [|discriminate]. apply Mg. eapply pick_bus_nonempty; eauto.
+    + destruct (pick_bus true "narrow" (cn_sbr_buses x)) eqn:P; [|discriminate]. apply Sb. eapply pick_bus_nonempty; eauto.
+    + destruct (pick_bus true "wide" (cn_sbr_buses x)) eqn:P; [|discriminate]. apply Sb. eapply pick_bus_nonempty; eauto.
+  - split; intros H; rewrite orb_false_r in H.
+    + destruct (pick_bus false "" (cn_mgr_buses x)) eqn:P; [|discriminate]. apply Mg. eapply pick_bus_nonempty; eauto.
+    + destruct (pick_bus false "" (cn_sbr_buses x)) eqn:P; [|discriminate]. apply Sb. eapply pick_bus_nonempty; eauto.
+Qed.
+
+Lemma find_unique {A} (p : A -> bool) l x : In x l -> p x = true -> (forall y, In y l -> p y = true -> y = x) -> find p l = Some x.
+Proof.
+  induction l as [|a l IH]; intros Hin Hp Hu; [destruct Hin|]. cbn [find]. destruct (p a) eqn:Ea.
+  - f_equal. apply Hu; [left; reflexivity|exact Ea].
+  - destruct Hin as [->|Hin]; [congruence|]. apply IH; [exact Hin|exact Hp|]. intros y Hy. apply Hu. right. exact Hy.
+Qed.
+
+Lemma enum_value_uid c s0 : enum_names_nodupb c = true -> In s0 (c_nis c) ->
+  enum_value (emit_ep_enum c) (snake_to_camel (enum_name s0)) = Some (cn_uid s0).
+Proof.
+  intros Hnd Hs0. unfold enum_names_nodupb in Hnd. cbv zeta in Hnd. apply andb_true_iff in Hnd. destruct Hnd as (Hnd & Hnn).
+  assert (Hnum : snake_to_camel (enum_name s0) <> "NumEndpoints").
+  { intros Hq. apply negb_true_iff in Hnn. assert (X : existsb (str_eqb "NumEndpoints") (map (fun n => snake_to_camel (enum_name n)) (c_nis c)) = true).
+    { apply existsb_exists. exists (snake_to_camel (enum_name s0)). split; [apply in_map_iff; eauto|apply str_eqb_eq; symmetry; exact Hq]. }
+    congruence. }
+  apply nodupb_str in Hnd. unfold enum_value, emit_ep_enum. cbn [snd].
+  rewrite (find_unique _ _ (snake_to_camel (enum_name s0), cn_uid s0)); [reflexivity| | |].
+  - apply in_or_app. left. unfold emit_members. apply sort_by_In. apply in_map_iff. exists s0. auto.
+  - cbn. apply str_eqb_eq. reflexivity.
+  - intros y Hy Hq. cbn in Hq. apply str_eqb_eq in Hq. apply in_app_or in Hy. destruct Hy as [Hy|[<-|[]]].
+    + unfold emit_members in Hy. apply sort_by_In in Hy. apply in_map_iff in Hy. destruct Hy as (t & <- & Ht). cbn in Hq.
+      assert (t = s0) by (eapply (NoDup_map_eq (fun n => snake_to_camel (enum_name n))); eauto). subst t. reflexivity.
+    + cbn in Hq. congruence.
+Qed.
+
+Lemma c09_deps_among_src (sp : oracle) d g c ri n nt :
+  build d = Ok g -> compile d g = Ok c -> gen_routing_info sp c = Ok ri -> emit c ri = Ok n -> d_algo d = SRC ->
+  enum_names_nodupb c = true ->
+  forall e, In e (c09_deps n nt) -> In e (src_deps sp c d ri n nt (all_pairs c)).
+Proof.
+  intros Hb Hc Hri He Ha Hnd e Hin.
+  assert (Hcd : c_desc c = d) by apply (compile_desc d g c Hc).
+  unfold c09_deps in Hin. apply in_flat_map in Hin. destruct Hin as ((s & t) & Hst & Hin).
+  unfold ordered_pairs in Hst. apply in_flat_map in Hst. destruct Hst as (s' & Hs' & Hst). apply in_flat_map in Hst.
+  destruct Hst as (t' & Ht' & Hst). destruct (str_eqb (ni_name s') (ni_name t')) eqn:En; [destruct Hst|].
+  destruct Hst as [Hst|[]]. inversion Hst; subst s' t'; clear Hst.
+  rewrite (emitted_nis c ri n He), Hcd in Hs', Ht'. apply in_map_iff in Hs', Ht'.
+  destruct Hs' as (s0 & <- & Hs0). destruct Ht' as (t0 & <- & Ht0).
+  (* the pair may communicate, so a route word was generated for it *)
+  destruct (compile_inv _ _ _ Hc) as (dirs & nis & rts & rids & Hn & _ & Hceq).
+  assert (Hroles : forall x, In x (c_nis c) ->
+            (ni_is_mgr (emit_ni d (ri_offset ri) x) = true -> ni_mgr x = true) /\
+            (ni_is_sbr (emit_ni d (ri_offset ri) x) = true -> ni_sbr x = true)).
+  { intros x Hx. rewrite Hceq in Hx. cbn in Hx. destruct (mapM_In _ _ _ _ Hn Hx) as (ni & _ & Hq). exact (emit_ni_roles d g ni x _ Hq). }
+  destruct (gri_inv _ _ _ Hri) as (_ & _ & _ & _ & Hroutes & _). specialize (Hroutes ltac:(rewrite Hcd; exact Ha)).
+  destruct (mapM_In_l _ _ _ _ Hroutes Hs0) as (er & _ & Eer). inv_bind Eer.
+  destruct (mapM_In_l _ _ _ _ E Ht0) as ([id ro] & _ & Hgr).
+  assert (Hgo : (match nt with Req => may_req (emit_ni d (ri_offset ri) s0) (emit_ni d (ri_offset ri) t0)
+                 | Rsp => may_rsp (emit_ni d (ri_offset ri) s0) (emit_ni d (ri_offset ri) t0) | Wide => false end) = true ->
+                exists ps, ro = Some ps).
+  { intros Hm. pose proof Hgr as Hgr'. unfold gen_route in Hgr'. inv_bind Hgr'.
+    cbn [emit_ni ni_name] in En. rewrite En in Hgr'. cbn [orb] in Hgr'.
+    assert (Hcase : (only_mgr s0 && only_mgr t0 || only_sbr s0 && only_sbr t0) = false).
+    { unfold only_mgr, only_sbr. destruct nt; [| |discriminate].
+      - unfold may_req in Hm. apply andb_true_iff in Hm. destruct Hm as (M1 & M2).
+        rewrite (proj1 (Hroles s0 Hs0) M1), (proj2 (Hroles t0 Ht0) M2). cbn. rewrite !andb_false_r. reflexivity.
+      - unfold may_rsp in Hm. apply andb_true_iff in Hm. destruct Hm as (M1 & M2).
+        rewrite (proj2 (Hroles s0 Hs0) M1), (proj1 (Hroles t0 Ht0) M2). cbn. rewrite !andb_false_r. reflexivity. }
+    rewrite Hcase in Hgr'. destruct (sp (c_graph c) (cn_name s0) (cn_name t0)) as [[|? ?]|]; try discriminate.
+    inv_bind Hgr'. inversion Hgr'; subst. eauto. }
+  destruct (match nt with Req => may_req _ _ | Rsp => may_rsp _ _ | Wide => false end) eqn:Emay; [|destruct Hin].
+  destruct (Hgo eq_refl) as (ps & ->).
+  (* the header is the emitted word of the pair *)
+  assert (Hxy : d_algo d <> XY) by (rewrite Ha; discriminate).
+  assert (Hh : hdr_for n (emit_ni d (ri_offset ri) s0) (emit_ni d (ri_offset ri) t0) = Ok (hdr_of_word n (word_value ps))).
+  { unfold hdr_for. destruct (emit_inv _ _ _ He) as (_ & axi & rts0 & _ & _ & Hneq).
+    assert (Halg : n_algo n = "SourceRouting") by (rewrite Hneq; cbn [n_algo]; rewrite Hcd, Ha; reflexivity).
+    rewrite Halg. replace (str_eqb "SourceRouting" "SourceRouting") with true by reflexivity.
+    cbn [emit_ni ni_row Netlist.ni_id]. rewrite Ha. rewrite (ids_are_uids d g c Hc Hxy t0 Ht0). cbn [id_sub].
+    assert (Henum : n_ep_enum n = emit_ep_enum c) by (rewrite Hneq; reflexivity). rewrite Henum.
+    rewrite (enum_value_uid c s0 Hnd Hs0).
+    rewrite (table_word_spec sp d g c ri n Hb Hc Hri He Ha s0 t0 id (Some ps) Hs0 Ht0 Hgr). reflexivity. }
+  rewrite Hh in Hin. unfold src_deps. apply in_flat_map. exists (s0, t0). split.
+  - unfold all_pairs. apply in_flat_map. exists s0. split; [exact Hs0|]. apply in_flat_map. exists t0. split; [exact Ht0|].
+    cbn [emit_ni ni_name] in En. rewrite En. left. reflexivity.
+  - cbn [fst snd]. rewrite Hgr. exact Hin.
+Qed.
+
+(* C09 as the checker states it, for every source-routed description whose links form a tree *)
+Theorem model_tree_C09_src_gen (sp : oracle) (B : nat) (d : desc) (g : graph) (c : compiled) (ri : rinfo) (n : netlist) (dp : list (string * Z)) :
+  build d = Ok g -> compile d g = Ok c -> gen_routing_info sp c = Ok ri -> emit c ri = Ok n -> d_algo d = SRC ->
+  contract sp g c B ->
+  first_hopb sp g c Req = true -> first_hopb sp g c Rsp = true ->
+  names_sepb g Req = true -> names_sepb g Rsp = true -> single_attachb g c = true -> links_typedb g c = true ->
+  enum_names_nodupb c = true ->
+  tree_certb g dp = true ->
+  C09_on n.
+Proof.
+  intros Hb Hc Hri He Ha Hcon F1 F2 N1 N2 H2 H3 Hnd Hcert nt Hnt.
+  assert (Hac : acyclic (c09_deps n nt)).
+  { intros v Hp.
+    assert (Hok : net_ok d nt) by (destruct Hnt as [-> | ->]; [left|right; left]; reflexivity).
+    assert (Hns : names_sepb g nt = true) by (destruct Hnt as [-> | ->]; assumption).
+    assert (Hfh : first_hopb sp g c nt = true) by (destruct Hnt as [-> | ->]; assumption).
+    apply (hw_tree_acyclic_src_gen sp B d g c ri n nt dp Hok Hb Hc Hri He Ha Hcon Hfh Hns H2 H3 Hcert (all_pairs c)
+             (fun s0 t H => conj (proj1 (all_pairs_spec c s0 t H)) (proj1 (proj2 (all_pairs_spec c s0 t H)))) v).
+    eapply path_mono; [|exact Hp]. apply (c09_deps_among_src sp d g c ri n nt Hb Hc Hri He Ha Hnd). }
+  split; [exact Hac|]. intros W Hsub Hall. eapply acyclic_no_deadlock; eauto.
+Qed.
+
+Theorem model_tree_C09_src_nx (d : desc) (g : graph) (c : compiled) (ri : rinfo) (n : netlist) (dp : list (string * Z)) :
+  build d = Ok g -> compile d g = Ok c -> gen_routing_info sp_nx c = Ok ri -> emit c ri = Ok n -> d_algo d = SRC ->
+  first_hopb sp_nx g c Req = true -> first_hopb sp_nx g c Rsp = true ->
+  names_sepb g Req = true -> names_sepb g Rsp = true -> single_attachb g c = true -> links_typedb g c = true ->
+  enum_names_nodupb c = true ->
+  tree_certb g dp = true ->
+  C09_on n.
+Proof. intros Hb Hc Hri He Ha. exact (model_tree_C09_src_gen sp_nx (nxB g) d g c ri n dp Hb Hc Hri He Ha (contract_nx d g c Hb Hc)). Qed.
+
+Theorem tree_conditions_sound_src_nx (d : desc) (g : graph) (c : compiled) (ri : rinfo) (n : netlist) :
+  build d = Ok g -> compile d g = Ok c -> gen_routing_info sp_nx c = Ok ri -> emit c ri = Ok n -> d_algo d = SRC ->
+  (exists bs, tree_conditions sp_nx d = Ok bs /\ forallb (fun b => b) bs = true) -> C09_on n.
+Proof.
+  intros Hb Hc Hri He Ha (bs & Ht & Hall). unfold tree_conditions in Ht. rewrite Hb in Ht. cbn [bind] in Ht. rewrite Hc in Ht. cbn [bind] in Ht.
+  destruct (tree_certb g (levels g)) eqn:Ecert; inversion Ht; subst bs; clear Ht; [|discriminate Hall].
+  rewrite Ha in Hall. cbn [forallb] in Hall. repeat (apply andb_true_iff in Hall; destruct Hall as (? & Hall)).
+  match goal with Hf : first_hopb sp_nx g c Req && first_hopb sp_nx g c Rsp = true |- _ => apply andb_true_iff in Hf; destruct Hf end.
+  eapply (model_tree_C09_src_nx d g c ri n (levels g)); eauto.
+Qed.
